@@ -185,10 +185,10 @@ def case_repro(B, cfg):
         if interleave:
             rng.normal(size=2)      # a foreign draw from the global stream
         try:
-            r = flat(f(11))
+            r = flat(f(cfg.get('seed_value', 11)))
         except Exception as e:
-            B.fact('no-exception (seed 11, global state %s)' % gstate, False,
-                   repr(e))
+            B.fact('no-exception (seed %r, global state %s)' % (
+                cfg.get('seed_value', 11), gstate), False, repr(e))
             return
         if interleave:
             rng.normal(size=1)
@@ -290,13 +290,17 @@ def jobs(tier):
                      units=[U('lognormal_nc', 2)])]
     for e in entries:
         out.append(('repro', 'case_repro', dict(e), FACTS))
+        # the integer seed 0 is a seed like any other
+        out.append(('repro', 'case_repro', dict(e, seed_value=0, light=True),
+                    FACTS))
     for e in entries:
         if e['entry'] in ('em', 'pop'):
-            out.append(('independent', 'case_independent',
-                        dict(e, delta_ok=True), FACTS))
+            for seed in (11, 0):
+                out.append(('independent', 'case_independent',
+                            dict(e, delta_ok=True, seed=seed), FACTS))
         elif e['entry'] in ('predictive', 'population_predictive',
                             'posterior_predictive', 'prior_predictive'):
-            for seed in (11, 'generator'):
+            for seed in (11, 0, 'generator'):
                 if seed == 'generator' and not e.get('generator_ok', True):
                     continue
                 out.append(('independent', 'case_independent',
